@@ -100,6 +100,13 @@ def run(case, drv) -> Outcome:
         cfg = zoo_kernels.gen_config(kind, rng)
         op, dom, rg, _ = zoo_kernels.build(cfg)
         ops[kind] = (op, dom, rg, lambda cfg=cfg: zoo_kernels.build(cfg)[0])
+    # operator algebra whose first summand / factor hands its argument through (identity-like): results built by accumulation
+    # must not accumulate into the caller's tensor
+    bd = zoo.build(zoo.gen_config('dcf', rng))
+    if list(bd.dom) == list(bd.rng):
+        ident = mrpro.operators.IdentityOp
+        ops['sum(identity first)'] = (ident() + bd.op + bd.op, bd.dom, bd.rng, lambda cfgb=bd.cfg: ident() + zoo.build(cfgb).op + zoo.build(cfgb).op)
+        ops['sum(identity twice)'] = (ident() + ident() + bd.op, bd.dom, bd.rng, lambda cfgb=bd.cfg: ident() + ident() + zoo.build(cfgb).op)
     for k, (op, *_rest) in ops.items():
         watch.add_module(f'op[{k}]', op)
     shape_f = (2, 3, 4)
